@@ -44,6 +44,10 @@ PROPS = {
         "suites": [("fill", 24, 200), ("delta", 40, 300), ("proc", 60, 600)],
         "title": "stream upper bound sound for every compressor; delta within budget, version-prefix, scheduled members excluded; replies <= 65,507 bytes",
     },
+    "C08": {
+        "suites": [("wire", 150, 1200), ("proc", 60, 600), ("fill", 10, 60)],
+        "title": "decode(encode m) = (m, no rest) and announced length = written length, for every in-range message in emitted normal form and every compressor/decompressor pair; every message in flight in a reachable state has that form; primitives, ids, digest, block stream (any number of blocks), op stream and builder round trips; wire suite: byte-for-byte encoder agreement on emitted messages, decoder agreement on independently encoded (compressed / raw / multi-block) and malformed streams",
+    },
     "C09": {
         "suites": [("wire", 120, 900), ("apply", 300, 3000), ("proc", 60, 600)],
         "title": "decoded messages are grammar-valid; processing them on any well-formed node never aborts and keeps the invariant",
